@@ -5,7 +5,8 @@
      fix_one / fill              fill_negatives_with_positives
      redistribute                get_second_round_kcals_with_redistributed_meat (called by
                                  compute_parameters_second_round; DESIGN calls it redistribute_meat)
-     bump1 / bump                increase_biofuels_then_feed (current code, i.e. with the np.minimum of fix 5ea9ff8)
+     bump1 / bump                increase_biofuels_then_feed (current code: np.minimum of fix 5ea9ff8 and the
+                                 clamp of both potential increases at 0)
 
    Units: every series handed to calculate_human_consumption_for_min_needs is already in
    "kcals per person per day" (the *_kcals_equivalent members of the round-1 interpreter); the function
@@ -187,6 +188,20 @@ Definition redistribute (r1 r2 : list Q) : res (list Q) :=
 Definition regulariser : Q := 1 # 1000000000.
 
 Definition bump1 (b f inc maxb maxf avail : Q) : Q * Q :=
+  let pb := npmax 0 (npmin (b + inc) maxb - b) in      (* np.maximum(np.minimum(biofuel + increase, max_biofuel) - biofuel, 0) *)
+  let pf := npmax 0 (npmin (f + inc) maxf - f) in      (* np.maximum(np.minimum(feed + increase, max_feed) - feed, 0) *)
+  let tp := pb + pf in
+  let allowed := if Qle_bool (tp + b + f) avail then tp else avail - b - f in
+  let prop := pb / (tp + regulariser) in
+  let ab := allowed * prop in
+  let af := npmin (allowed - ab) pf in
+  let ab := npmax 0 ab in
+  let af := npmax 0 af in
+  (b + ab, f + af).
+
+(* the code before the clamp fix (potential increases could be negative when a quantity already exceeded its
+   demand or the requested increase was negative); kept for the refutation that motivated the fix *)
+Definition bump1_before_clamp_fix (b f inc maxb maxf avail : Q) : Q * Q :=
   let pb := npmin (b + inc) maxb - b in
   let pf := npmin (f + inc) maxf - f in
   let tp := pb + pf in
